@@ -129,7 +129,9 @@ def run(ctx, tier):
                         lits, _o = P.find_literals(fn, a1, (pu['block'], fn.nstmts(pu['block'])), lambda rv: rv.get('adt') == c['node'])
                         src_local = None
                         cur = pl
-                        for _ in range(4):
+                        if F.get('via_list') and pu['block'] == F.get('push_block'):
+                            src_local = -1      # the forward edges are the adjacency list of this very literal
+                        for _ in range(4 if src_local is None else 0):
                             evs, entry = fn.reaching(cur['l'], (pu['block'], fn.nstmts(pu['block'])), (), True, whole_only=True)
                             if cur['l'] == F.get('node_local'):
                                 src_local = cur['l']
